@@ -71,8 +71,9 @@ func newStream(str quic.Stream, conn *connection, datagrams *datagrammer, parseT
 
 func (s *stream) Read(b []byte) (int, error) {
 	fp := &frameParser{
-		r:    s.Stream,
-		conn: s.conn,
+		r:          s.Stream,
+		conn:       s.conn,
+		bodyStream: true,
 	}
 	if s.bytesRemainingInFrame == 0 {
 	parseLoop:
